@@ -1218,6 +1218,22 @@ func (k *kase) checkUnknownKeys(ctx context.Context) {
 				k.h.Inconclusive("deleted-channel-metadata-reappeared-on-gateway")
 				return
 			}
+			if ierr == nil && nm == "deleted" {
+				var it2 *iterator.Iterator
+				var ierr2 error
+				if !k.guard("OpenIterator(unknown, again)", func() {
+					it2, ierr2 = k.node(via).Framer.OpenIterator(ctx, iterator.Config{Keys: keys, Bounds: telem.TimeRangeMax})
+					if ierr2 == nil {
+						_ = it2.Close()
+					}
+				}) {
+					return
+				}
+				if ierr2 != nil {
+					k.h.Inconclusive("deleted-channel-metadata-flickered-on-gateway")
+					return
+				}
+			}
 			if ierr == nil {
 				k.violate("c07:open-iterator-succeeds-on-missing-channel:"+nm+":"+mix,
 					fmt.Sprintf("OpenIterator through node %d with keys %v succeeded although channel %d does not exist (%s)", via, keys, bad, nm))
